@@ -358,7 +358,9 @@ class PolygonFilter(object):
         data2write.append("Name = {}".format(self.name))
         data2write.append("Inverted = {}".format(self.inverted))
         for i, point in enumerate(self.points):
-            data2write.append("point{:08d} = {:.15e} {:.15e}".format(i,
+            # 17 significant digits are required (and sufficient) for an
+            # exact text round trip of double-precision coordinates
+            data2write.append("point{:08d} = {:.16e} {:.16e}".format(i,
                                                                      point[0],
                                                                      point[1]))
         # Add new lines
